@@ -78,11 +78,14 @@ var props = map[string]*Prop{}
 func register(p *Prop) { props[p.ID] = p }
 
 type Env struct {
-	Drv    *Driver
-	TmpDir string
-	Seed   int64
-	Tier   string
-	PropID string
+	Drv        *Driver
+	DriverPath string
+	gsOnce     sync.Once
+	gs         *Driver
+	TmpDir     string
+	Seed       int64
+	Tier       string
+	PropID     string
 }
 
 func main() {
@@ -212,7 +215,7 @@ func cmdWorker(args []string) int {
 	// this process dies in a case (a panic of the implementation skips the deferred removal)
 	tmp, _ := os.MkdirTemp(f.tmproot, "klogv-"+f.prop+"-")
 	defer os.RemoveAll(tmp)
-	env := &Env{Drv: drv, TmpDir: tmp, Seed: f.seed, Tier: f.tier, PropID: f.prop}
+	env := &Env{Drv: drv, DriverPath: f.driver, TmpDir: tmp, Seed: f.seed, Tier: f.tier, PropID: f.prop}
 
 	emit := func(k int, o *Outcome) {
 		b, _ := json.Marshal(o)
